@@ -288,10 +288,8 @@ impl<S: ClientStream> AgentClient<S> {
         let _t = resp.read_string()?;
         let sig = resp.read_string()?;
 
-        let mut out = [0; 64];
-        out.copy_from_slice(sig);
-
-        Ok(out)
+        // An ed25519 signature is exactly 64 bytes long.
+        Signature::try_from(sig).map_err(|_| Error::AgentProtocolError)
     }
 
     /// Ask the agent to remove a key from its memory.
